@@ -383,9 +383,39 @@ theorem inv_conn (m : Mode) (w : World) (hI : Inv w) (r : ConnReq) : Inv (conn m
       · simp only; omega
       · exact ⟨(hI.sids s hs).1, Nat.le_succ_of_le (hI.sids s hs).2⟩
 
+-- the entry point's `ensureTicketKeys` touches nothing but the key list of the server connected to ----------------
+
+theorem ensureKeys_disabled (s : Server) (k : Nat) : (ensureKeys s k).disabled = s.disabled := by
+  unfold ensureKeys; split <;> rfl
+
+theorem ensureKeys_suites (s : Server) (k : Nat) : (ensureKeys s k).suites = s.suites := by
+  unfold ensureKeys; split <;> rfl
+
+theorem ensureKeys_auth (s : Server) (k : Nat) : (ensureKeys s k).auth = s.auth := by
+  unfold ensureKeys; split <;> rfl
+
+theorem ensureKeys_maxVers (s : Server) (k : Nat) : (ensureKeys s k).maxVers = s.maxVers := by
+  unfold ensureKeys; split <;> rfl
+
+theorem vers_ensureKeys (m : Mode) (s : Server) (k : Nat) : vers m (ensureKeys s k) = vers m s := by
+  cases m
+  · rfl
+  · simp only [vers, ensureKeys_maxVers]
+
+theorem prep_srv_self (w : World) (r : ConnReq) :
+    (prep w r).srv r.srv = ensureKeys (w.srv r.srv) (autoKey (w.n + 1)) := by
+  simp [prep, setSrv]
+
+theorem inv_prep (w : World) (hI : Inv w) (r : ConnReq) : Inv (prep w r) :=
+  ⟨hI.cache, hI.sids, hI.cap, hI.len⟩
+
+theorem inv_serve (m : Mode) (w : World) (hI : Inv w) (r : ConnReq) : Inv (serve m w r).1 :=
+  inv_conn m (prep w r) (inv_prep w hI r) r
+
 theorem inv_step (m : Mode) (w : World) (hI : Inv w) (s : Step) : Inv (step m w s).1 := by
   cases s with
-  | conn r => exact inv_conn m w hI r
+  | conn r => exact inv_serve m w hI r
+  | fresh i => exact ⟨hI.cache, hI.sids, hI.cap, hI.len⟩
   | keys i ks => exact ⟨hI.cache, hI.sids, hI.cap, hI.len⟩
   | suites i l => exact ⟨hI.cache, hI.sids, hI.cap, hI.len⟩
   | auth i a => exact ⟨hI.cache, hI.sids, hI.cap, hI.len⟩
@@ -413,16 +443,29 @@ theorem inv_reach (m : Mode) (cap : Nat) (h : List Step) : Inv (reach m (initWor
     | cons s ss ih => intro w hw; exact ih _ (inv_step m w hw s)
   exact this _ (inv_init cap)
 
-/-- T1 `history_resumption_sound`: after ANY history, a connection that both ends report as resumed carries
-    the master secret, version, suite of a full handshake earlier in that history, was made with an
-    unaltered ticket while tickets were enabled, and the suite is one the client offers now and the server's
-    configuration lists now. -/
-theorem history_resumption_sound (m : Mode) (cap : Nat) (h : List Step) (r : ConnReq) (sid : Nat)
+/-- the statement below for the handshake proper (`conn`, without the entry point's `ensureTicketKeys`) -/
+theorem history_resumption_sound_handshake (m : Mode) (cap : Nat) (h : List Step) (r : ConnReq) (sid : Nat)
     (hr : (conn m (reach m (initWorld cap) h) r).2 = .resumed sid) :
     ∃ st ∈ (reach m (initWorld cap) h).issued, st.sid = sid ∧ sid ≤ (reach m (initWorld cap) h).n ∧
       st.vers = vers m ((reach m (initWorld cap) h).srv r.srv) ∧ st.suite ∈ helloSuites m r.csuites ∧ r.tampered = false ∧
       ((reach m (initWorld cap) h).srv r.srv).disabled = false := by
   obtain ⟨st, hin, h1, _, h3, h4, h5, _, h7, h8⟩ := resumed_is_original m _ (inv_reach m cap h) r sid hr
+  exact ⟨st, hin, h1, h3, h4, h5, h8, h7⟩
+
+/-- T1 `history_resumption_sound`: after ANY history (connections, key rotations, configuration changes,
+    ticket switches, new `Config`s without a ticket key), a connection (`serve`: entry point and handshake)
+    that both ends report as resumed carries the master secret, version, suite of a full handshake earlier
+    in that history, was made with an unaltered ticket while tickets were enabled, and the suite is one the
+    client offers now and the server's configuration lists now. -/
+theorem history_resumption_sound (m : Mode) (cap : Nat) (h : List Step) (r : ConnReq) (sid : Nat)
+    (hr : (serve m (reach m (initWorld cap) h) r).2 = .resumed sid) :
+    ∃ st ∈ (reach m (initWorld cap) h).issued, st.sid = sid ∧ sid ≤ (reach m (initWorld cap) h).n ∧
+      st.vers = vers m ((reach m (initWorld cap) h).srv r.srv) ∧ st.suite ∈ helloSuites m r.csuites ∧ r.tampered = false ∧
+      ((reach m (initWorld cap) h).srv r.srv).disabled = false := by
+  obtain ⟨st, hin, h1, _, h3, h4, h5, _, h7, h8⟩ :=
+    resumed_is_original m _ (inv_prep _ (inv_reach m cap h) r) r sid hr
+  rw [prep_srv_self, vers_ensureKeys] at h4
+  rw [prep_srv_self, ensureKeys_disabled] at h7
   exact ⟨st, hin, h1, h3, h4, h5, h8, h7⟩
 
 /-- T1 `unacceptable_certs_never_resume` (repaired gate): a ticket whose stored client certificates do not chain to
